@@ -262,11 +262,21 @@ def _decorate_namespace_property(
             continue
 
         # An accessor re-used from the property of a base class (*e.g.*, ``@Base.x.setter``) has been already
-        # collapsed there; collapsing it again would merge its contracts into themselves.
+        # collapsed there; collapsing it again would merge its contracts into themselves. The base may hold it
+        # wrapped once more (*e.g.*, with invariant checks), so the accessors are compared by their contract checker.
+        own_contract_checker = icontract._checkers.find_checker(func=func)
         if any(
             isinstance(getattr(base, key, None), property)
             and any(
-                func is base_func
+                base_func is not None
+                and (
+                    func is base_func
+                    or (
+                        own_contract_checker is not None
+                        and icontract._checkers.find_checker(func=base_func)
+                        is own_contract_checker
+                    )
+                )
                 for base_func in (
                     getattr(base, key).fget,
                     getattr(base, key).fset,
